@@ -464,6 +464,54 @@ func genSchedule(rng *rand.Rand, family string, depth int) *Schedule {
 			}
 		}
 		return sc
+	case "smpcount":
+		// every SMP message with every wrong count of numbers (one short, one more, none, 2^32-1, 2^28), both
+		// versions; then an honest run that must succeed
+		sc.Setup, sc.Fam = "ake", "smpdev"
+		sc.Frag = map[string]int{}
+		sc.Pol["A"], sc.Pol["B"] = 1, 1
+		if genIdx%2 == 1 {
+			sc.Pol["A"], sc.Pol["B"] = 3, 3
+		}
+		{
+			which := (genIdx / 2) % 4
+			force := []string{"count-1", "count+1", "count0", "countmax", "count2^28"}[(genIdx/8)%5]
+			ini, oth := "A", "B"
+			add(Step{A: "SMPStart", P: ini, S: 1, Q: (genIdx/40)%2 == 1})
+			if which == 0 {
+				add(Step{A: "SMPTamper", P: oth, F: force})
+			} else {
+				add(Step{A: "Deliver", P: oth})
+			}
+			add(Step{A: "SMPAnswer", P: oth, S: 1})
+			if which == 1 {
+				add(Step{A: "SMPTamper", P: ini, F: force})
+			} else {
+				add(Step{A: "Deliver", P: ini})
+			}
+			if which == 2 {
+				add(Step{A: "SMPTamper", P: oth, F: force})
+			} else {
+				add(Step{A: "Deliver", P: oth})
+			}
+			if which == 3 {
+				add(Step{A: "SMPTamper", P: ini, F: force})
+			} else {
+				add(Step{A: "Deliver", P: ini})
+			}
+			for k := 0; k < 3; k++ {
+				add(Step{A: "Deliver", P: "A"})
+				add(Step{A: "Deliver", P: "B"})
+			}
+			add(Step{A: "SMPStart", P: oth, S: 5})
+			add(Step{A: "Deliver", P: ini})
+			add(Step{A: "SMPAnswer", P: ini, S: 5})
+			for k := 0; k < 3; k++ {
+				add(Step{A: "Deliver", P: "A"})
+				add(Step{A: "Deliver", P: "B"})
+			}
+		}
+		return sc
 	case "smptlv":
 		// an authenticated message that carries an SMP TLV and a "disconnected" TLV (either order), at
 		// each of the four SMP steps; afterwards the parties start over
